@@ -1,5 +1,5 @@
 (* Properties/C19.v — deepcopy and pickle reproduce any node tree. *)
-From AY Require Import Model.Eval Proofs.CopyLemmas Proofs.FlagsLemmas.
+From AY Require Import Model.Eval Proofs.CopyLemmas Proofs.FlagsLemmas Model.Loader Proofs.CopyLoad.
 
 (* For EVERY tree over all node kinds and flag combinations, a deep copy has the same kinds, keys, order, scalar content,
    targets / reference points, priorities, explicit delete / allow_new / safe marks, source-level safety, metadata and
@@ -16,6 +16,19 @@ Print Assumptions C19_deepcopy_content.
 Theorem C19_deepcopy_exact : forall n, Consistent n -> recopy n = n.
 Proof. exact recopy_consistent. Qed.
 Print Assumptions C19_deepcopy_exact.
+
+(* EVERY parsed document (any nesting, any placement of merge-control tags, metadata, unsafe sources) is consistent, so its
+   deep copy is the very same tree - every raw and inherited flag of every node: it therefore merges at any position of any
+   sequence and evaluates exactly like the original. *)
+Theorem C19_parsed_document_copy_exact : forall c y, recopy (load_doc c y) = load_doc c y.
+Proof. exact parsed_copy_exact. Qed.
+Print Assumptions C19_parsed_document_copy_exact.
+
+Theorem C19_parsed_document_copy_interchangeable : forall e c y xs ys pe fe,
+  flatten e (xs ++ recopy (load_doc c y) :: ys) = flatten e (xs ++ load_doc c y :: ys) /\
+  config pe fe (recopy (load_doc c y)) = config pe fe (load_doc c y).
+Proof. intros. now rewrite parsed_copy_exact. Qed.
+Print Assumptions C19_parsed_document_copy_interchangeable.
 
 (* C19_deepcopy_exact is NOT true of every tree that merging produces: a node promoted into an older object can carry
    implicit flags its ancestors no longer imply; the copy then differs from the original in those flags. *)
